@@ -127,11 +127,11 @@ Definition export_matches (c : case) (expected : option (list xitem)) : bool :=
 (* ---------- the model's answer ---------- *)
 Definition model_trace (c : case) : result (list triplet) :=
   do d <- c_mdomain c;
-  parse_plan d (c_eps c) (c_allow c) (c_objs c) id_schedule (c_init c) (c_lines c).
+  parse_plan d (c_eps c) (c_allow c) (quantification_objects d (c_objs c)) id_schedule (c_init c) (c_lines c).
 
 Definition model_direct (c : case) (d : mdomain) (line : string) (pre : state) : dobs :=
   dobs_of (do call <- parse_action_call line;
-           apply_call d (c_eps c) (Some (c_objs c)) (c_allow c) id_orders call pre).
+           apply_call d (c_eps c) (Some (quantification_objects d (c_objs c))) (c_allow c) id_orders call pre).
 
 Definition model_agrees (c : case) : bool :=
   match model_trace c, c_trace c with
@@ -163,11 +163,11 @@ Section SpecRun.
   Variable c : case.
   Variable d : sdomain.
   Definition s_app (m : action * list name) (s : state) : bool :=
-    applicable (c_eps c) (spec_tt d) (c_objs c) (fst m) (snd m) s.
+    applicable (c_eps c) (spec_tt d) (dupdate (sd_consts d) (c_objs c)) (fst m) (snd m) s.
   Definition s_succ (m : action * list name) (s : state) : state :=
-    successor (c_eps c) (spec_tt d) (c_objs c) (fst m) (snd m) s.
+    successor (c_eps c) (spec_tt d) (dupdate (sd_consts d) (c_objs c)) (fst m) (snd m) s.
   Definition s_consistent (m : action * list name) (s : state) : bool :=
-    consistent (all_groups (c_eps c) (spec_tt d) (c_objs c) (fst m) (snd m) s).
+    consistent (all_groups (c_eps c) (spec_tt d) (dupdate (sd_consts d) (c_objs c)) (fst m) (snd m) s).
 
   Definition spec_trace (calls : list (action * list name)) := run_plan _ _ s_app s_succ (c_allow c) (c_init c) calls.
 
